@@ -3,10 +3,24 @@
 //@ anchor: serde_avro_fast/src/schema/self_referential.rs :: pub struct Schema \{
 //@ anchor: serde_avro_fast/src/schema/self_referential.rs :: pub\(crate\) fn root<'a>\(&'a self\) -> NodeRef<'a>
 
-/// Test-harness constructor: a frozen `Schema` whose node vector, fingerprint and JSON are given
-/// directly (the fields are private to this file).  It does NOT go through parsing / freeze
-/// (serde_json + HashMap are out of CBMC's reach, DESIGN §1); harnesses that use it state which
-/// node kinds they build.
-pub(crate) fn mk_schema(nodes: Vec<SchemaNode<'static>>, fingerprint: [u8; 8]) -> Schema {
-	Schema { nodes, fingerprint, schema_json: String::new() }
+/// Test-harness constructor: a frozen `Schema` whose node storage is a `static` array, with the
+/// fingerprint given directly (the fields are private to this file).
+///
+/// It does NOT go through parsing / freeze (serde_json + HashMap are out of CBMC's reach,
+/// DESIGN §1).  The node vector is a `Vec` header aliasing the static array and the whole value
+/// is `ManuallyDrop`: it is never dropped, grown or written, so no allocator call ever sees the
+/// static pointer.  Measured: with heap-built nodes CBMC cannot constant-fold the node kind and
+/// every arm of the (de)serializer's `match *schema_node` plus the HashMap drop glue stays
+/// reachable (> 900 s); with static nodes the same harness takes seconds.
+pub(crate) fn mk_schema_static(
+	nodes: &'static [SchemaNode<'static>],
+	fingerprint: [u8; 8],
+) -> std::mem::ManuallyDrop<Schema> {
+	// SAFETY (harness only): len == capacity == nodes.len(), never reallocated or dropped.
+	let v = unsafe {
+		Vec::from_raw_parts(nodes.as_ptr() as *mut SchemaNode<'static>, nodes.len(), nodes.len())
+	};
+	std::mem::ManuallyDrop::new(Schema { nodes: v, fingerprint, schema_json: String::new() })
 }
+
+pub(crate) static NODES_LONG: [SchemaNode<'static>; 1] = [SchemaNode::Long];
